@@ -92,10 +92,9 @@ theorem canon_is_spelling (hP : MonthOK P) (k : Kind) {m : Nat} {w : Val} (hc : 
 
 /-- **Non-months are left alone**, with their type: a value that spells no month 1..12 (out-of-range
 numbers, enclosed text, other words, digit strings `int()` rejects, lists, None ...) is returned as it
-is by each of the three middlewares.  (`Fits`: an int-typed value must be printable in the
-"unknown month" message, see `never_raises_cx`.) -/
+is by each of the three middlewares - also an int too long for `str()` to print (`huge_int_ok`). -/
 theorem non_month_unchanged (hP : MonthOK P) (k : Kind) {v : Val}
-    (hn : ¬ ∃ m, 1 ≤ m ∧ m ≤ 12 ∧ Spelling P D m v) (hv : Fits D v) :
+    (hn : ¬ ∃ m, 1 ≤ m ∧ m ≤ 12 ∧ Spelling P D m v) :
     resolveVal P D k v = .ok v := by
   cases v with
   | int i =>
@@ -108,8 +107,8 @@ theorem non_month_unchanged (hP : MonthOK P) (k : Kind) {v : Val}
       · omega
     cases k with
     | toInt => exact int_int i
-    | toAbbr => exact abbr_int_out hout (hv i rfl)
-    | toLong => exact long_int_out hout (hv i rfl)
+    | toAbbr => exact abbr_int_out hout
+    | toLong => exact long_int_out hout
   | str s =>
     cases hd : isDigitStr P s with
     | true =>
@@ -164,7 +163,7 @@ theorem non_month_unchanged (hP : MonthOK P) (k : Kind) {v : Val}
 
 /-- **Composition law**, all 9 ordered pairs, every value: applying `X` after `Y` equals applying
 `X` alone. -/
-theorem compose (hP : MonthOK P) (X Y : Kind) (v : Val) (hv : Fits D v) :
+theorem compose (hP : MonthOK P) (X Y : Kind) (v : Val) :
     ∃ w, resolveVal P D Y v = .ok w ∧ resolveVal P D X w = resolveVal P D X v := by
   by_cases hm : ∃ m, 1 ≤ m ∧ m ≤ 12 ∧ Spelling P D m v
   · obtain ⟨m, h1, h12, hs⟩ := hm
@@ -179,17 +178,17 @@ theorem compose (hP : MonthOK P) (X Y : Kind) (v : Val) (hv : Fits D v) :
     rw [hcu'] at hcu2
     cases hcu2
     rfl
-  · exact ⟨v, non_month_unchanged hP Y hm hv, rfl⟩
+  · exact ⟨v, non_month_unchanged hP Y hm, rfl⟩
 
-/-- the value-level functions never raise (on printable ints; on every str and every other value) -/
-theorem resolve_total (hP : MonthOK P) (k : Kind) (v : Val) (hv : Fits D v) :
+/-- the value-level functions never raise, whatever the value -/
+theorem resolve_total (hP : MonthOK P) (k : Kind) (v : Val) :
     ∃ w msg, resolve P D k v = .ok (w, msg) := by
   have key : ∃ w, resolveVal P D k v = .ok w := by
     by_cases hm : ∃ m, 1 ≤ m ∧ m ≤ 12 ∧ Spelling P D m v
     · obtain ⟨m, h1, h12, hs⟩ := hm
       obtain ⟨w, _, hw⟩ := result_of_spelling hP k hs h1 h12
       exact ⟨w, hw⟩
-    · exact ⟨v, non_month_unchanged hP k hm hv⟩
+    · exact ⟨v, non_month_unchanged hP k hm⟩
   obtain ⟨w, hw⟩ := key
   unfold resolveVal at hw
   split at hw
@@ -197,40 +196,31 @@ theorem resolve_total (hP : MonthOK P) (k : Kind) (v : Val) (hv : Fits D v) :
     exact ⟨r.1, r.2, hr⟩
   · cases hw
 
-/-- **Never raises** (entry level): `transform_entry` returns for every entry whose int-typed field
-values are printable - in particular for every parsed entry (all values are `str`), whatever the
-text: superscript digits, 5000 digits, arbitrary Unicode. -/
-theorem never_raises (hP : MonthOK P) (k : Kind) (e : Entry) (hv : ∀ f ∈ e.fields, Fits D f.value) :
+/-- **Never raises** (entry level): no value whatsoever makes `transform_entry` raise - any text
+(superscript digits, 5000 digits, arbitrary Unicode), any int (also one with more digits than
+`str()` prints, see `huge_int_ok`), any other object. -/
+theorem never_raises (hP : MonthOK P) (k : Kind) (e : Entry) :
     ∃ r, transformEntry P D k e = .ok r := by
   unfold transformEntry
   cases hl : lastMonth e.fields with
   | none => exact ⟨e, rfl⟩
   | some f =>
-    obtain ⟨pre, post, hfs, _, _, _⟩ := lastMonth_some hl
-    have hmem : f ∈ e.fields := by rw [hfs]; simp
-    obtain ⟨w, msg, hr⟩ := resolve_total hP k f.value (hv f hmem)
+    obtain ⟨w, msg, hr⟩ := resolve_total (D := D) hP k f.value
     exact ⟨_, by simp only [hr]; rfl⟩
 
-/-- **Never raises** (library level): `Month…Middleware().transform(library)` returns. -/
-theorem never_raises_library (hP : MonthOK P) (k : Kind) (bs : List Block)
-    (hv : ∀ e, Block.live (.entry e) ∈ bs → ∀ f ∈ e.fields, Fits D f.value) :
+/-- **Never raises** (library level): `Month…Middleware().transform(library)` returns for every library. -/
+theorem never_raises_library (hP : MonthOK P) (k : Kind) (bs : List Block) :
     ∃ out, transform P D k bs = .ok out :=
-  blockMw_total _ bs (fun e he => never_raises hP k e (hv e he))
+  blockMw_total _ bs (fun e _ => never_raises hP k e)
 
-/-- the unrestricted "no value whatsoever makes the middleware raise" -/
-def never_raises_full : Prop :=
-  ∀ (P : PyChars) (D : Nat) (k : Kind) (e : Entry), MonthOK P → ∃ r, transformEntry P D k e = .ok r
-
-/-- ... is false of the model and of the code alike: an int-typed month value with more than `D`
-digits (here `10^D` with `D = 4300`, CPython's default limit) makes the abbreviation and long-name
-middlewares raise `ValueError` while formatting "unknown month {v}". -/
-theorem never_raises_cx : ¬ never_raises_full := by
-  intro h
-  obtain ⟨r, hr⟩ := h asciiChars 4300 .toLong
-    { ty := [], key := [], fields := [⟨monthKey, .int ((10 ^ 4300 : Nat) : Int), 0⟩], line := 0, raw := [] } asciiChars_ok
-  have h12 : 12 < 10 ^ 4300 := Nat.lt_of_lt_of_le (by decide : 12 < 10 ^ 2) (Nat.pow_le_pow_right (by decide) (by decide))
-  rw [entry_int_raises (P := asciiChars) (D := 4300) h12 (by decide) (Nat.le_refl _)] at hr
-  cases hr
+/-- an int month value that `str()` refuses to print (`|i| ≥ 10^D`, `D > 0`) is left unchanged by all
+three middlewares; the abbreviation and long-name middlewares record the "unknown month" message with
+the placeholder text `<integer with too many digits>` in place of the number -/
+theorem huge_int_ok (k : Kind) {i : Int} (hD : 0 < D) (hi : 10 ^ D ≤ i.natAbs) (h12 : 12 < i.natAbs) :
+    resolve P D k (.int i) = .ok (.int i, match k with
+      | .toInt => msgUnchanged
+      | _ => msgUnknownPrefix ++ tooManyDigits) :=
+  resolve_huge k hD hi h12
 
 /-- **Only the month value and one metadata key change.**  An entry without a field called
 `month` is returned as it is; otherwise the LAST such field gets the resolved value and
@@ -298,9 +288,8 @@ example : (resolve asciiChars 4300 .toAbbr (.str "0009".toList)).toOption = some
 example : (resolve asciiChars 4300 .toAbbr (.int 13)).toOption =
     some (.int 13, "month-field unchanged - unknown month 13".toList) := by decide +kernel
 
-/-- a non-month: "13" spells nothing, and is printable -/
-example : (¬ ∃ m, 1 ≤ m ∧ m ≤ 12 ∧ Spelling asciiChars 4300 m (.str "13".toList)) ∧ Fits 4300 (.str "13".toList) := by
-  refine ⟨?_, by intro i h; cases h⟩
+/-- a non-month: "13" spells nothing -/
+example : ¬ ∃ m, 1 ≤ m ∧ m ≤ 12 ∧ Spelling asciiChars 4300 m (.str "13".toList) := by
   rintro ⟨m, h1, h12, h⟩
   have h13 : pyInt asciiChars 4300 "13".toList = some 13 := by decide
   cases h with
@@ -308,9 +297,27 @@ example : (¬ ∃ m, 1 ≤ m ∧ m ≤ 12 ∧ Spelling asciiChars 4300 m (.str "
   | abbr _ ha => exact absurd (List.mem_of_getElem? ha) (by decide)
   | full _ hf => exact absurd (List.mem_of_getElem? hf) (by decide)
 
-example : Fits 4300 (.int 13) := by
-  intro i h; cases h; right
-  exact Nat.lt_of_lt_of_le (by decide : (13 : Int).natAbs < 10 ^ 2) (Nat.pow_le_pow_right (by decide) (by decide))
+/-- the huge-int case, evaluated by the kernel: `month = 10**4300` (an int of 4301 digits, one more
+than CPython prints) now comes back unchanged with the placeholder message, for the entry as a whole -/
+example : (transformEntry asciiChars 4300 .toLong
+    { ty := [], key := [], fields := [⟨monthKey, .int (10 ^ 4300), 0⟩], line := 0, raw := [] }).toOption.map
+      (fun r => (r.fields.map (·.value), r.md))
+    = some ([.int (10 ^ 4300)],
+        [(metadataKey .toLong, .str "month-field unchanged - unknown month <integer with too many digits>".toList)]) := by
+  decide +kernel
+
+example : (resolve asciiChars 4300 .toAbbr (.int (-(10 ^ 4300)))).toOption =
+    some (.int (-(10 ^ 4300)), "month-field unchanged - unknown month <integer with too many digits>".toList) := by
+  decide +kernel
+
+/-- one digit fewer is printed in full (the message ends in the 4300 digits of the number) -/
+example : ((resolve asciiChars 4300 .toAbbr (.int (10 ^ 4300 - 1))).toOption.map fun r => (r.1, r.2.length)) =
+    some (.int (10 ^ 4300 - 1), 38 + 4300) := by
+  decide +kernel
+
+/-- hypotheses of `huge_int_ok` -/
+example : (0 : Nat) < 4300 ∧ 10 ^ 4300 ≤ ((10 : Int) ^ 4300).natAbs ∧ 12 < ((10 : Int) ^ 4300).natAbs := by
+  decide +kernel
 
 /-- an entry with two `month` fields: the last one is resolved, everything else stays -/
 example : (transformEntry asciiChars 4300 .toInt
